@@ -95,6 +95,8 @@ pub enum PolicySpec {
     RefuseAfter(usize),
     /// doubles, refuses a result above the limit
     DoubleLimit(usize),
+    /// answers Some(current) (no growth granted yet) k times, then doubles
+    Stall(usize),
 }
 
 impl PolicySpec {
@@ -114,6 +116,11 @@ pub struct Fault {
     /// index of the source call (reads and seeks counted together, from 0)
     pub call: usize,
     pub kind: String,
+    /// how the io::Error is built: "" = from the kind alone; "msg" = custom string payload;
+    /// "nested:<Kind>" = payload is another io::Error of that kind; "seqio" = payload is one of
+    /// seq_io's own error values (what a Read adaptor layered on a seq_io reader produces)
+    #[serde(default)]
+    pub payload: String,
 }
 
 pub const FAULT_KINDS: &[&str] = &[
@@ -161,6 +168,9 @@ pub struct Cfg {
     pub cuts: Vec<usize>,
     #[serde(default)]
     pub faults: Vec<Fault>,
+    /// (source call index, length): that many consecutive reads starting there return Interrupted
+    #[serde(default)]
+    pub intr_burst: Option<(usize, usize)>,
 }
 
 impl Cfg {
@@ -171,6 +181,7 @@ impl Cfg {
             script: vec![],
             cuts: vec![],
             faults: vec![],
+            intr_burst: None,
         }
     }
 }
